@@ -54,7 +54,7 @@ def main():
     shutil.rmtree(keep, ignore_errors=True)
   for row in rows:
     print(' | '.join(str(x) for x in row))
-  missed = [r for r in rows if 'MISSED' in r or 'HARNESS-ERROR' in r]
+  missed = [r for r in rows if 'MISSED' in r or 'HARNESS-ERROR' in r or 'PATCH-FAILED' in r]
   print(f'{len(rows)} rows, {len(missed)} missed/errors')
 
 
